@@ -12,7 +12,7 @@ meaning is where its value came from.
 Destructuring is component-wise where the shapes line up: `let (a, b) = (x, y)`,
 `match (x, y) { (P, Q) => .. }`, `let (a, b) = if c { (x1, y1) } else { (x2, y2) }`.
 """
-from .hir import walk, unwrap
+from .hir import walk, unwrap, is_call_to, ends
 
 
 def pat_binds(p, out=None):
@@ -261,3 +261,21 @@ def _has_user_code(e):
         if "e" in n and not n.get("exp") and n.get("e") not in ("lit", "path"):
             return True
     return False
+
+
+def find_loop(fn):
+    loops = [n for n in walk(fn["body"]) if n.get("e") == "match" and "ForLoopDesugar" in n.get("src", "")
+             and is_call_to(unwrap(n["scrut"]), "IntoIterator::into_iter", "into_iter")]
+    return loops
+
+
+def loop_parts(loop):
+    """(iterated expr, item pattern, body) of a desugared for-loop."""
+    it = unwrap(loop["scrut"])["args"][0]
+    for n in walk(loop["arms"][0]["body"]):
+        if n.get("e") == "match" and "ForLoopDesugar" in n.get("src", "") and n is not loop:
+            for a in n["arms"]:
+                if a["pat"].get("p") in ("struct", "tstruct") and ends(a["pat"]["path"].get("def", ""), "core::option::Option::Some"):
+                    pat = a["pat"]["fields"][0]["pat"] if a["pat"]["p"] == "struct" else a["pat"]["pats"][0]
+                    return it, pat, a["body"]
+    return it, None, None
